@@ -557,7 +557,8 @@ pub fn run_property(prop: &dyn Property, tier: Tier, seed: u64) -> RunResult {
 
     // 2. sweeps (parallel over indices, first failing index wins)
     if violation.is_none() {
-        let n = prop.sweep_len(tier);
+        // VERIF_SKIP_SWEEP is a debugging aid for sensitivity probes of the random phase (never set by registered commands)
+        let n = if std::env::var("VERIF_SKIP_SWEEP").is_ok() { 0 } else { prop.sweep_len(tier) };
         if n > 0 {
             let next = std::sync::atomic::AtomicUsize::new(0);
             let results: Mutex<(Stats, Option<(usize, Failure)>)> = Mutex::new((Stats::default(), None));
